@@ -157,6 +157,50 @@ func (m *multi) NewResponse() proto.Message {
 	return &pb.MultiResponse{}
 }
 
+// validateResponse checks that the response only refers to regions and calls
+// that were sent in this request and has at most one result for each call.
+// DeserializeCellBlocks and returnResults rely on that.
+func (m *multi) validateResponse(msg proto.Message) error {
+	rars := msg.(*pb.MultiResponse).GetRegionActionResult()
+	if len(rars) > len(m.regions) {
+		return fmt.Errorf("got %d region action results for %d regions in multi request",
+			len(rars), len(m.regions))
+	}
+	seen := make([]bool, len(m.calls))
+	for i, rar := range rars {
+		if rar.GetException() != nil {
+			if l := len(rar.GetResultOrException()); l != 0 {
+				return fmt.Errorf(
+					"got exception for region, but still have %d result(s) returned from it", l)
+			}
+			for j, c := range m.calls {
+				if c == nil || c.Region() != m.regions[i] {
+					continue
+				}
+				if seen[j] {
+					return fmt.Errorf("got more than one result for action %d", j+1)
+				}
+				seen[j] = true
+			}
+			continue
+		}
+		for _, roe := range rar.GetResultOrException() {
+			i := roe.GetIndex()
+			if i == 0 {
+				return errors.New("no index for result in multi response")
+			} else if int64(i) > int64(len(m.calls)) || m.calls[i-1] == nil {
+				return fmt.Errorf("got result for action %d that was not sent", i)
+			} else if seen[i-1] {
+				return fmt.Errorf("got more than one result for action %d", i)
+			} else if roe.GetResult() == nil && roe.GetException() == nil {
+				return errors.New("no result or exception for action in multi response")
+			}
+			seen[i-1] = true
+		}
+	}
+	return nil
+}
+
 // DeserializeCellBlocks deserializes action results from cell blocks.
 func (m *multi) DeserializeCellBlocks(msg proto.Message, b []byte) (uint32, error) {
 	mr := msg.(*pb.MultiResponse)
